@@ -169,6 +169,8 @@ def classify(case):
         cl.append("offending-line-empty")
     if v["kind"] == "non-numeric" and v["text"] in ("-", "+"):
         cl.append("sign-only")
+    if v["kind"] == "non-numeric" and v["text"] == "":
+        cl.append("empty-field-in-an-integer-column")
     return nontrivial, cl
 
 
@@ -310,6 +312,8 @@ def sampled_case(draw, fmt, max_records, W):
     v = {"kind": kind, "pos": p}
     if kind == "non-numeric":
         v.update(col=4 if all_dot else draw(st.sampled_from(NUMERIC_COLS[fmt])), text=draw(st.sampled_from(BAD_NUM)))
+        if not all_dot and not (fmt in ("bed6", "narrowpeak") and v["col"] == 4) and draw(st.integers(0, 7)) == 0:
+            v["text"] = ""          # nothing at all where an integer belongs (an optional column takes that for 'missing', so not there)
         if fmt in FLOAT_COLS and not all_dot and draw(st.booleans()):
             v.update(col=draw(st.sampled_from(FLOAT_COLS[fmt])), text=draw(st.sampled_from(BAD_FLOAT)), float_column=True)
             if draw(st.booleans()):
